@@ -291,6 +291,45 @@ def orl_system(sid, scripts, net_len=4, lossy=True, ignore_even=None, replies=No
     return s
 
 
+def orl_direct(res, wd, systems, rng, q):
+    """the same link-wrapped actors driven directly (persistent owned states, as actor::spawn drives handlers) along seeded
+    random schedules; TLC judges every step against the protocol spec and the C16 predicates on every state"""
+    items = []
+    for s in systems:
+        x = dict(s)
+        x.update(runs=(40 if q else 400), steps=(45 if len(s["scripts"]) <= 2 else 70), seed=rng.randint(1, 2 ** 40))
+        items.append(x)
+    sp, rp, op = os.path.join(wd, "direct-systems.ndjson"), os.path.join(wd, "direct-recs.ndjson"), os.path.join(wd, "direct-out.json")
+    write_ndjson(sp, items)
+    run_vh(["orl_direct", "--in", sp, "--out", rp], timeout=3000)
+    recs = read_ndjson(rp)
+    r = run_tlc("JudgeOrlSteps.tla", "cfg/JudgeOrl.cfg", env=dict(SYSTEMS=sp, RECS=rp, OUT=op), timeout=3000, heap="10g", name="jorlsteps")
+    if not r["ok"]:
+        raise ToolError("ORL step judge failed: " + r["out"][-2500:])
+    o = json.load(open(op))
+    drift, handed = 0, 0
+    for j in o["states"]:
+        rec = recs[j["idx"] - 1]
+        for f in j["failed"]:
+            if f in ("step", "init"):
+                drift += 1
+            else:
+                # the schedule that led here: the actions of this run up to this step
+                sched = [x["a"] for x in recs if x.get("sys") == rec.get("sys") and x.get("run") == rec.get("run") and x.get("step", 0) <= rec.get("step", 0)]
+                res.violation("%s/orl_direct" % f, dict(check=f, system=systems[j["sys"] - 1], state=rec.get("to"), schedule=sched))
+    if drift:
+        log("SPEC-DRIFT: %d directly driven steps of the real link are not steps of OrderedReliableLink.tla (property predicates "
+            "are still judged on every state reached)" % drift)
+        res.notes.append("SPEC-DRIFT (direct driving): %d steps" % drift)
+    for x in recs:
+        if "to" in x and any(a["handed"] for a in x["to"]["actors"]):
+            handed += 1
+    res.traces += len(items) * items[0]["runs"]
+    res.evaluations += len(recs)
+    res.nontrivial += handed
+    res.notes.append("direct driving (owned states, as the UDP runtime): %d steps of %d seeded schedules judged, %d drift" % (len(recs), len(items) * items[0]["runs"], drift))
+
+
 def c16(res):
     """C16: ordered reliable link. Design: MCOrl (all drop/duplicate/reorder/retransmission interleavings, 3 invariants);
     the as-found protocol variant must violate Prefix (non-vacuity). Binding: the property predicates are judged by TLC on
@@ -366,6 +405,7 @@ def c16(res):
     res.nontrivial += len([s for s in states if any(a["handed"] for a in s["state"]["actors"])])
     res.samples.append(dict(system=systems[1]["scripts"], state=states[len(states) // 2]["state"]))
     res.notes.append("real link: %d reachable states recorded over %d systems (TLC's own count on the spec: %d)" % (known, len(systems), tlc_states))
+    orl_direct(res, wd, systems, rng, q)
     res.rule = ("scripted link-wrapped senders/receivers (2-3 actors, 1-4 messages, several destinations / senders / both "
                 "directions) over the lossy duplicating network with retransmission timers; every reachable state of the real "
                 "model within the boundary is judged (prefix, acknowledged => handed over, completion); non-trivial = states in "
